@@ -36,7 +36,7 @@ CHECKS['C02'] = dict(
    note=PROTO_NOTE, technique='Coq proof (ordering invariants over both machines) + differential correspondence', ref='§5, §6 C02')
 CHECKS['C05'] = dict(
    text="Theorems for every item list: a '??' source never pushes anything; an ephemeral request never rewinds/fast-forwards/discards; the publish gate of a non-balanced "
-        'publisher ignores ephemeral clients; machines compared with the real classes; all-or-nothing and ordering of ephemeral portions by oracle.',
+        'publisher ignores ephemeral clients, and on a load-balancing publisher an idle listener never vetoes its endpoint (C05_balanced_listener_never_vetoes); machines compared with the real classes; all-or-nothing and ordering of ephemeral portions by oracle.',
    note=PROTO_NOTE, technique='Coq proof (trace property over all runs; gate independence lemma) + differential correspondence', ref='§5, §6 C05')
 CHECKS['C07'] = dict(
    text='Theorems for every item list: a balanced publisher writes each frame to exactly one branch and un-requests only that branch; the rejoined stream is strictly increasing; '
